@@ -211,10 +211,7 @@ func fieldToType(f *ast.Field) (string, bool) {
 // extractArgumentsType returns the name of the type of each input argument.
 func extractArgumentsType(f *ast.FuncDecl) ([]string, bool) {
 	var fields []*ast.Field
-	if f.Recv != nil {
-		if len(f.Recv.List) != 1 {
-			panic("Expect only one receiver; please fix panicparse's code")
-		}
+	if f.Recv != nil && len(f.Recv.List) == 1 {
 		// If it is an object receiver (vs a pointer receiver), its address is not
 		// printed in the stack trace so it needs to be ignored.
 		if _, ok := f.Recv.List[0].Type.(*ast.StarExpr); ok {
@@ -240,6 +237,11 @@ func extractArgumentsType(f *ast.FuncDecl) ([]string, bool) {
 
 // augmentCall walks the function and populate call accordingly.
 func augmentCall(call *Call, f *ast.FuncDecl) {
+	if f.Recv != nil && len(f.Recv.List) != 1 {
+		// go/parser accepts receiver lists that are not valid Go. Such a source
+		// cannot be the one the binary was built from: leave the call as is.
+		return
+	}
 	flatArgs := make([]*Arg, 0, len(call.Args.Values))
 	call.Args.walk(func(arg *Arg) {
 		flatArgs = append(flatArgs, arg)
